@@ -60,15 +60,19 @@ func (o *optSpec) appendTo(b *wire.Builder) {
 
 // upSpec describes the reply the harness upstream gives for a case.
 type upSpec struct {
-	Rcode   int       `json:"rcode"` // low 4 bits
-	NAns    int       `json:"n_answers"`
-	TTL     uint32    `json:"ttl"`
-	SOA     bool      `json:"soa_in_authority"`
-	Glue    int       `json:"glue_rrs"` // non-OPT additional records
-	OptPos  int       `json:"opt_pos"`  // index among the additional records where the OPT(s) go
-	Opts    []optSpec `json:"opts"`     // 0, 1 or (hostile class) 2 OPT records
-	TC      bool      `json:"tc,omitempty"`
-	GlueTTL uint32    `json:"glue_ttl"`
+	Rcode  int       `json:"rcode"` // low 4 bits
+	NAns   int       `json:"n_answers"`
+	TTL    uint32    `json:"ttl"`
+	SOA    bool      `json:"soa_in_authority"`
+	Glue   int       `json:"glue_rrs"` // non-OPT additional records
+	OptPos int       `json:"opt_pos"`  // index among the additional records where the OPT(s) go
+	Opts   []optSpec `json:"opts"`     // 0, 1 or (hostile class) 2 OPT records
+	TC     bool      `json:"tc,omitempty"`
+	// Fail: the upstream exchange does not produce a response: "error" (the
+	// terminal returns an error), "noresp" (returns nil without a response),
+	// "timeout" (blocks until the client's context is cancelled).
+	Fail    string `json:"fail,omitempty"`
+	GlueTTL uint32 `json:"glue_ttl"`
 }
 
 func (u *upSpec) extRcode() uint8 {
@@ -97,6 +101,8 @@ type clientCase struct {
 	// Inject: OPT record the harness plugin $inject appends in place to
 	// qCtx.R().Extra right after the terminal (nil = nothing injected).
 	Inject *optSpec `json:"harness_injected_opt,omitempty"`
+	// Script: branch family only - what each branch's upstream does per qtype.
+	Script map[string]bScript `json:"branch_script,omitempty"`
 }
 
 func (c *clientCase) queryBytes() []byte {
@@ -196,6 +202,8 @@ type chainDesc struct {
 	FwdQuick    bool   `json:"fwd_quick_setup,omitempty"`
 	MultiOpt    bool   `json:"upstream_multi_opt_class"` // hostile upstream: replies may carry two OPT records
 	Inject      bool   `json:"inject_plugin_after_terminal"`
+	// Branch != nil: chain of the branch family (see branch.go); Pre/Post unused.
+	Branch *branchDesc `json:"branch,omitempty"`
 }
 
 func (c *chainDesc) hasCache() bool {
@@ -268,6 +276,9 @@ func (e *elem) sig() string {
 // namedUp returns the option codes that a forwarding plugin positioned before
 // the terminal names for the client->upstream direction.
 func (c *chainDesc) namedUp() map[uint16]bool {
+	if c.Branch != nil {
+		return c.Branch.named()
+	}
 	m := map[uint16]bool{}
 	for _, e := range c.Pre {
 		switch e.Kind {
@@ -288,6 +299,9 @@ func (c *chainDesc) namedUp() map[uint16]bool {
 // upstream->client direction (forward_edns0opt copies on the way back even when
 // it sits after the terminal; ecs_handler forward copies the upstream's ECS).
 func (c *chainDesc) namedDown() map[uint16]bool {
+	if c.Branch != nil {
+		return c.Branch.named()
+	}
 	m := map[uint16]bool{}
 	for _, l := range [][]elem{c.Pre, c.Post} {
 		for _, e := range l {
@@ -373,6 +387,9 @@ func genECSFor(addr netip.Addr, mask4, mask6 int) ecsNorm {
 // terminal may legitimately add for this client.
 func (c *chainDesc) generatedECS(clientAddr string) []ecsNorm {
 	var out []ecsNorm
+	if c.Branch != nil {
+		return nil // no ECS generator in branch chains
+	}
 	for _, e := range c.Pre {
 		if e.Kind != "ecs" && e.Kind != "ecs_handler" {
 			continue
@@ -593,6 +610,9 @@ func genCase(r *rand.Rand, ch *chainDesc, idx, phase int, names []string) *clien
 		o := genUpOpt(r, true)
 		c.Inject = &o
 	}
+	if !ch.RealForward && r.Intn(14) == 0 {
+		u.Fail = []string{"error", "noresp", "timeout"}[r.Intn(3)]
+	}
 	return c
 }
 
@@ -678,6 +698,11 @@ func genChain(seed int64, idx, ncases int, realForward bool, multiOpt bool) *cha
 	}
 	if r.Intn(3) == 0 {
 		ch.Post = append(ch.Post, elem{Kind: "ttl", TTLSpec: []string{"9", "60-120", "0-3"}[r.Intn(3)]})
+	}
+	if r.Intn(6) == 0 {
+		// AAAA queries end without any response: the handler answers REFUSED itself
+		ch.Post = append(ch.Post, elem{Kind: "drop_resp_aaaa"})
+		r.Shuffle(len(ch.Post), func(i, j int) { ch.Post[i], ch.Post[j] = ch.Post[j], ch.Post[i] })
 	}
 	ch.Inject = r.Intn(4) == 0
 	if ch.Inject && len(ch.Post) == 0 && r.Intn(3) != 0 {
